@@ -466,6 +466,19 @@ func (s *vInvState) apply(op vInvOp, withStatusCheck bool) bool {
 		ok = s.refresh(op.Snap)
 		out.Result = "ok"
 	case "reserve":
+		// A second reservation for an order that already holds one of ANOTHER
+		// group is not issued: which of several reservations of one order a
+		// later release or deployment event picks is not fixed by the statement
+		// ("a release removes exactly one"), and the model could not tell.  A
+		// second reservation of the SAME group is issued: the two cannot be
+		// told apart, so any pick is the model's pick.
+		for _, r := range s.model.Res {
+			if r.Order == op.Order && r.Group != vInvGroups[op.Group].Name {
+				out.Result = "not issued (order holds a reservation of another group)"
+				s.run.Outcomes = append(s.run.Outcomes, out)
+				return true
+			}
+		}
 		if s.model.Blocked || !s.model.HasSnap {
 			// the service would make the caller wait for the next refresh: issue it with one
 			s.run.Ops[len(s.run.Ops)-1] = vInvOp{Kind: "refresh", Snap: op.Snap}
@@ -619,22 +632,31 @@ func (s *vInvState) checkStatus(trigger string) bool {
 	if len(st1.Active) != nAct || len(st1.Pending) != nPen {
 		s.bad("status-one-entry-per-reservation", trigger, fmt.Sprintf("status reports %d active / %d pending entries, outstanding are %d deployed / %d not yet deployed", len(st1.Active), len(st1.Pending), nAct, nPen))
 	} else {
-		// single-entry reservations report exactly their committed unit
-		ia, ip := 0, 0
+		// single-entry reservations report exactly their committed unit; the
+		// statement fixes one entry per reservation with the same amounts every
+		// time, not the position of an entry in the listing
+		reported := map[string]int{}
+		key := func(class string, c, m, st int64) string { return fmt.Sprintf("%s:%d/%d/%d", class, c, m, st) }
+		for _, u := range st1.Active {
+			reported[key("active", int64(u.CPU.Units.Value()), int64(u.Memory.Quantity.Value()), int64(u.Storage.Quantity.Value()))]++
+		}
+		for _, u := range st1.Pending {
+			reported[key("pending", int64(u.CPU.Units.Value()), int64(u.Memory.Quantity.Value()), int64(u.Storage.Quantity.Value()))]++
+		}
 		for _, r := range s.model.Res {
-			var u atypes.ResourceUnits
-			if r.Allocated {
-				u = st1.Active[ia]
-				ia++
-			} else {
-				u = st1.Pending[ip]
-				ip++
+			if len(r.Entries) != 1 {
+				continue
 			}
-			if len(r.Entries) == 1 {
-				e := r.Entries[0].Unit
-				if int64(u.CPU.Units.Value()) != e.CPU || int64(u.Memory.Quantity.Value()) != e.Mem || int64(u.Storage.Quantity.Value()) != e.Sto {
-					s.bad("status-reports-committed-amounts", trigger, fmt.Sprintf("reservation o%d/%s reported as %d/%d/%d, committed unit is %d/%d/%d", r.Order, r.Group, u.CPU.Units.Value(), u.Memory.Quantity.Value(), u.Storage.Quantity.Value(), e.CPU, e.Mem, e.Sto))
-				}
+			class := "pending"
+			if r.Allocated {
+				class = "active"
+			}
+			e := r.Entries[0].Unit
+			k := key(class, e.CPU, e.Mem, e.Sto)
+			if reported[k] == 0 {
+				s.bad("status-reports-committed-amounts", trigger, fmt.Sprintf("no %s entry of the status carries the committed unit %d/%d/%d of reservation o%d/%s; status: %s", class, e.CPU, e.Mem, e.Sto, r.Order, r.Group, a))
+			} else {
+				reported[k]--
 			}
 		}
 	}
